@@ -35,15 +35,17 @@ type MessageTransporter interface {
 	DispatchWithType(m msg.Message, msgType, laneKey string) bool
 }
 
-func NewMessageTransporter(sendCh chan msg.Message) MessageTransporter {
+// NewMessageTransporter sends through sendFn, which must return an error instead of blocking
+// once the underlying connection is gone (msg.Dispatcher.Send does).
+func NewMessageTransporter(sendFn func(msg.Message) error) MessageTransporter {
 	return &transporterImpl{
-		sendCh:   sendCh,
+		sendFn:   sendFn,
 		registry: make(map[string]map[string]chan msg.Message),
 	}
 }
 
 type transporterImpl struct {
-	sendCh chan msg.Message
+	sendFn func(msg.Message) error
 
 	// First key is message type and second key is lane key.
 	// Dispatch will dispatch message to related channel by its message type
@@ -53,9 +55,7 @@ type transporterImpl struct {
 }
 
 func (impl *transporterImpl) Send(m msg.Message) error {
-	return errors.PanicToError(func() {
-		impl.sendCh <- m
-	})
+	return impl.sendFn(m)
 }
 
 func (impl *transporterImpl) Do(ctx context.Context, req msg.Message, laneKey, recvMsgType string) (msg.Message, error) {
